@@ -759,13 +759,20 @@ def run_symfp_check(specname, tier, seed, jobs=None):
     return finish(spec, st, total, wall, bt)
 
 
+def evidence_dir():
+    """evidence/ for /repo; evidence/alt-<hash>/ (git-ignored) when VERIF_REPO points at another tree (mutation testing)"""
+    d = os.path.join(VERIF, "evidence") if REPO == "/repo" else os.path.join(VERIF, "evidence", SUB)
+    os.makedirs(os.path.join(d, "replay"), exist_ok=True)
+    return d
+
+
 def finish(spec, st, R, wall, build_time, level="other"):
-    os.makedirs(os.path.join(VERIF, "evidence", "replay"), exist_ok=True)
+    EVD = evidence_dir()
     for k in R.known:
         print("KNOWN-FINDING: property=%s %s" % (spec.ID, k.get("known") or k.get("obligation")))
     rc = 0
     for n, v in enumerate(R.violations):
-        path = os.path.join(VERIF, "evidence", "replay", "%s-%d.json" % (spec.ID, n))
+        path = os.path.join(EVD, "replay", "%s-%d.json" % (spec.ID, n))
         with open(path, "w") as f:
             json.dump(v, f, indent=1, default=str)
         print("VIOLATION property=%s replay=%s" % (spec.ID, path))
@@ -800,7 +807,7 @@ def finish(spec, st, R, wall, build_time, level="other"):
         assumptions=sorted(R.assumptions)[:50] + list(getattr(spec, "ASSUMPTIONS", [])),
         wall_s=round(wall, 2), violations=len(R.violations),
     )
-    with open(os.path.join(VERIF, "evidence", spec.ID + ".json"), "w") as f:
+    with open(os.path.join(EVD, spec.ID + ".json"), "w") as f:
         json.dump(ev, f, indent=1, default=str)
     print("%s tier=%s: instances=%d paths=%d obligations=%d discharged=%d inconclusive=%d abstraction-cex=%d violations=%d known=%d errors=%d wall=%.1fs solver=%.1fs" % (
         spec.ID, st.tier, R.instances, R.paths, R.obligations, R.discharged, inconc, len(R.abstraction_cex), len(R.violations), len(R.known), len(R.errors), wall, R.solver_time))
